@@ -43,13 +43,13 @@ Lemma wv_payload_decimal n : n < 4294967296 -> wv_int_payload (T.sprintf_u n) = 
 Proof.
   intros Hn.
   pose proof (TP.enc_wv_int_decimal n Hn) as E1.
-  rewrite Proofs.ModelConsistencyTyped.enc_wv_int_eq in E1. injection E1 as E1.
-  rewrite enc_wv_integer_payload in E1.
+  rewrite Proofs.ModelConsistencyTyped.enc_wv_int_eq in E1. apply (f_equal T.payload_of) in E1. cbn [T.payload_of] in E1.
+  change (enc_wv_integer (T.sprintf_u n)) with (enc_opaque (wv_int_payload (T.sprintf_u n))) in E1.
   destruct (TP.octets_value n Hn) as (_ & _ & Hl & _).
   assert (P1 : T.opaque_payload (enc_opaque (wv_int_payload (T.sprintf_u n))) = Some (wv_int_payload (T.sprintf_u n))).
   { change (enc_opaque (wv_int_payload (T.sprintf_u n))) with (T.enc_opaque (wv_int_payload (T.sprintf_u n))).
     apply TP.opaque_payload_enc. destruct (wv_int_payload_ok (T.sprintf_u n)) as [_ B]. unfold S.u32_okb, Parser.blen in B. lia. }
-  rewrite E1 in P1. rewrite TP.opaque_payload_short in P1 by lia. now injection P1 as <-.
+  rewrite E1 in P1. rewrite TP.opaque_payload_short in P1 by lia. congruence.
 Qed.
 
 Theorem canon_wv_int_idem v o : canon_wv_int v = Some o -> canon_wv_int o = Some o.
